@@ -352,3 +352,6 @@ func gradeShort(ver uint8, h uint32, prev []string, entries []Entry) []string {
 	}
 	return g.Grade().WinnersShortHashes()
 }
+
+// FAString renders a 32-byte address as a human readable FA address.
+func FAString(a [32]byte) string { return factom.FAAddress(a).String() }
